@@ -110,7 +110,7 @@ func (p *c08) Rule() string {
 // ---------------------------------------------------------------- plan
 
 var c08Entries = []string{"load-write-render", "withfs-load-write-render", "write-load-render", "write-renderfile", "write-renderstring", "vue-render", "vue-fragment"}
-var c08Shapes = []string{"map", "struct-tag", "struct-name", "ptr-tag", "ptr-name", "struct-untagged", "struct-omitempty", "ptr-omitempty"}
+var c08Shapes = []string{"map", "struct-tag", "struct-name", "ptr-tag", "ptr-name", "struct-untagged", "struct-omitempty", "ptr-omitempty", "map-named", "map-string"}
 var c08Types = []string{"s", "i", "b", "l", "m", "n"} // n: strings, but the front-matter holds the key with a YAML null ("key: ~")
 var c08Kinds = []string{"FF", "FA", "AF", "AA"} // kind of the earlier write, kind of the later write
 
@@ -273,8 +273,15 @@ func c08GenMatrix(i int) c08Case {
 		}
 	}
 	c.Tpls = []c08Tpl{tpl}
+	if shape == "map-string" && typ != "s" {
+		return c08Case{} // a map[string]string holds strings only
+	}
 	fshape := "map"
 	switch {
+	case shape == "map-named":
+		fshape = "namedmap" // type Vars map[string]any
+	case shape == "map-string":
+		fshape = "strmap" // map[string]string
 	case strings.HasPrefix(shape, "struct"):
 		fshape = "struct"
 	case strings.HasPrefix(shape, "ptr"):
@@ -603,16 +610,29 @@ var c08FieldTypes = map[string]reflect.Type{
 	"m": reflect.TypeOf(map[string]any(nil)),
 }
 
+// C08Vars is a named map type, as applications define for their view data.
+type C08Vars map[string]any
+
 // c08Data builds the value handed to Fill / Vue.Render.
 func c08Data(keys []c08Key, shape string, v map[string]string) any {
 	switch shape {
 	case "nil":
 		return nil
-	case "map", "":
+	case "map", "", "namedmap":
 		m := map[string]any{}
 		for n, tag := range v {
 			k, _ := c08KeyByName(keys, n)
 			m[n] = c08Go(k, tag, false)
+		}
+		if shape == "namedmap" {
+			return C08Vars(m)
+		}
+		return m
+	case "strmap":
+		m := map[string]string{}
+		for n, tag := range v {
+			k, _ := c08KeyByName(keys, n)
+			m[n] = fmt.Sprint(c08Go(k, tag, false))
 		}
 		return m
 	}
